@@ -1,6 +1,7 @@
 import Orca.Lemmas.SemSim
 import Orca.Lemmas.SemBranch
 import Orca.Lemmas.SpecialFlat
+import Orca.Lemmas.StackSpec
 /-!
 # C19 — block exit probes fire when the block or arm falls through
 
@@ -93,3 +94,15 @@ theorem c19_flat_block_exit_placed_if (f : Orca.Lower.Func) (pre arm rest : List
   Orca.Lower.blockExit_placed_if f pre arm rest sel closer pr hbody hrne hsp hentry hexit hpre harm hcl hrest hsel hk hck n n2 hd1 hd2 hd3
 
 end Orca.Sem
+
+namespace Orca.Lower
+
+/-- **flat code, every plan.** Not only a single probe (`…_placed` above): for any number of block-exit probes, together with any other
+    block-level probes and `before` / `after` code, on any constructs nested in any way, the encoded function is what the stack machine
+    `specRun` defines (Lemmas/StackSpec.lean), which puts block-exit code in front of the matching `end`; of an `if`: in front of its own `else`, or of its `end` when it has none (`specStep`: the frame's `ifExit` / `exitB` lists are emitted in front of the `else` / `end` that pops or continues the frame). -/
+theorem c19_flat_every_plan (f : Func) (hsp : f.hasSpecial = true) (hentry : f.entry = []) (hexit : f.exit = [])
+    (hp : ∀ x ∈ f.body, Plain x) (out : List Tok) (hs : specRun (f.body.length - 1) 0 [{}] f.body = some out) :
+    lower f = (out, f.added) :=
+  lower_eq_spec f hsp hentry hexit hp out hs
+
+end Orca.Lower
